@@ -741,6 +741,13 @@ class Serialization:
             out, val, serialization=self, subtypes=type_tree.subtypes
         )
 
+    def _has_unknown_codec(self, type_tree: SubtypeTree) -> bool:
+        """Does the type tree name a codec this Serialization lacks?"""
+
+        return type_tree.name not in self.codecs or any(
+            self._has_unknown_codec(t) for t in type_tree.subtypes
+        )
+
     @staticmethod
     def _parse_type(type_name: str) -> SubtypeTree:
         """Given an encoded aux_data type_name, generate its parse tree.
@@ -844,6 +851,12 @@ class Serialization:
             all_bytes = raw_bytes
         else:
             all_bytes = raw_bytes.read()
+        if self._has_unknown_codec(parse_tree):
+            # A type naming an unknown codec anywhere is opaque, even if
+            # decoding these particular bytes would never reach that name
+            # (an empty container, an unselected variant alternative):
+            # otherwise the table would be re-encoded, not preserved, on save.
+            return UnknownData(all_bytes)
         try:
             return self._decode_tree(
                 io.BytesIO(all_bytes), parse_tree, get_by_uuid
